@@ -450,11 +450,17 @@ def _t_egcd(line, arg=None):
     return re.sub(r'Integer::extended_gcd\(&\((\w+) as (i64|i128)\), &\((\w+) as (i64|i128)\)\)', r'ol_egcd_\2(\1 as \2, \3 as \4)', line)
 
 
-TRANSFORMERS = [('Regcd', _t_egcd), ('Rneut', _t_neut), ('Rzn', _t_zn), ('Rtup', _t_rtup), ('Rmul', _t_mulassign), ('Rconst', _t_one_const), ('Rref', _t_rref), ('Rtry', _t_try), ('Rverb', _t_verb), ('Rvec', _t_rvec), ('Rone', _t_one_shl), ('Rdiv', _t_opassign), ('R10', _t_r10), ('Rit', _t_forit), ('Rfor', _t_forname), ('R8', _t_r8), ('Rsort', _t_sort), ('R7', _t_r7), ('R1', _t_r1), ('R1u', _t_unsafe), ('ret', _t_ret), ('brace', _t_brace)]
+def _t_fsqrt(line, arg=None):
+    """Rsqrt: `(X as f64).sqrt() as u64` -> `ol_f64_sqrt_u64(X)` (floating point is outside the Verus subset; outlined with
+    an assumed accuracy contract)"""
+    return re.sub(r'\((\w+) as f64\)\.sqrt\(\) as u64', r'ol_f64_sqrt_u64(\1)', line)
+
+
+TRANSFORMERS = [('Rsqrt', _t_fsqrt), ('Regcd', _t_egcd), ('Rneut', _t_neut), ('Rzn', _t_zn), ('Rtup', _t_rtup), ('Rmul', _t_mulassign), ('Rconst', _t_one_const), ('Rref', _t_rref), ('Rtry', _t_try), ('Rverb', _t_verb), ('Rvec', _t_rvec), ('Rone', _t_one_shl), ('Rdiv', _t_opassign), ('R10', _t_r10), ('Rit', _t_forit), ('Rfor', _t_forname), ('R8', _t_r8), ('Rsort', _t_sort), ('R7', _t_r7), ('R1', _t_r1), ('R1u', _t_unsafe), ('ret', _t_ret), ('brace', _t_brace)]
 
 
 # line-local normalisations that need no accompanying ghost text: applied to current lines that have no pinned counterpart
-FREE = ('Regcd', 'R1', 'R1u', 'Rconst', 'Rmul', 'Rdiv', 'Rverb', 'Rtry', 'Rone', 'Rsort', 'R8', 'Rzn', 'Rneut')
+FREE = ('Rsqrt', 'Regcd', 'R1', 'R1u', 'Rconst', 'Rmul', 'Rdiv', 'Rverb', 'Rtry', 'Rone', 'Rsort', 'R8', 'Rzn', 'Rneut')
 
 
 def free_normalise(line):
@@ -517,6 +523,7 @@ def key(line):
         return '<<brace>>'
     s = re.sub(r'ol_uint_one_shl\(([^()]*)\)', r'Uint::ONE << (\1)', s)
     s = s.replace('ol_verbosity(prefs)', 'prefs.verbosity')
+    s = re.sub(r'ol_f64_sqrt_u64\((\w+)\)', r'(\1 as f64).sqrt() as u64', s)
     s = re.sub(r'ol_egcd_(i64|i128)\((\w+) as (i64|i128), (\w+) as (i64|i128)\)', r'Integer::extended_gcd(&(\2 as \3), &(\4 as \5))', s)
     s = s.replace('ol_zn_n(zn)', 'zn.n')
     s = s.replace('ol_neutral128(self)', 'Point(M128(0), self.one, self.one)')
